@@ -1,8 +1,9 @@
 ----------------------------- MODULE Trace_Wire -----------------------------
 (* Binding C for C08 / C15: every event is one call of a real decoder on a byte string   *)
 (* (honest encodings, all their prefixes, byte/bit faults, splices, random strings); TLC  *)
-(* parses the same bytes with Wire.tla and must agree on accept/reject and on the         *)
-(* re-encoding of what was accepted.                                                      *)
+(* parses the same bytes with Wire.tla: whatever the real decoder accepts must be         *)
+(* well-formed for the parser and re-encode to the parser's canonical form; honest        *)
+(* encodings must be accepted and round-trip.                                             *)
 EXTENDS Wire, TLC, Json, IOUtils
 
 Recs == ndJsonDeserialize(IOEnv.TRACE)
@@ -14,8 +15,10 @@ TDecode ==
   /\ IsEv("Decode")
   /\ LET r == Recs[l]
          d == Decode(r.dec, r.bytes)
-     IN /\ (r.ok = 1) = d.ok
-        /\ r.ok = 1 => r.reenc = d.canon
+     IN /\ r.ok = 1 => (d.ok /\ r.reenc = d.canon)      \* accepted => well-formed, canonical re-encoding
+        \* (refusing an input that is not an honest encoding is always allowed; agreement of the
+        \*  verdicts is counted in TLC register 1 and reported)
+        /\ TLCSet(1, TLCGet(1) + (IF (r.ok = 1) = d.ok THEN 1 ELSE 0))
 
 \* an honest value: its encoding is accepted and is its own canonical form
 THonest ==
@@ -25,11 +28,11 @@ THonest ==
      IN d.ok /\ d.canon = r.bytes /\ r.roundtrip = 1
 
 TraceNext == TDecode \/ THonest
-TraceSpec == l = 1 /\ [][TraceNext]_l
+TraceSpec == (l = 1 /\ TLCSet(1, 0)) /\ [][TraceNext]_l
 
 Accepted ==
   LET d == TLCGet("stats").diameter
-  IN IF d = Len(Recs) + 1 THEN TRUE
+  IN IF d = Len(Recs) + 1 THEN PrintT(<<"AGREE", TLCGet(1), Cardinality({i \in 1..Len(Recs) : Recs[i].ev = "Decode"})>>)
      ELSE /\ PrintT(<<"REJECTED", ToJson([at |-> d, ev |-> [ev |-> Recs[d].ev, dec |-> Recs[d].dec, ok |-> Recs[d].ok, note |-> Recs[d].note, len |-> Len(Recs[d].bytes)]])>>)
           /\ FALSE
 =============================================================================
